@@ -212,9 +212,13 @@ def _load_stdlib_backend():
         maxmem = SCRYPT_MAXMEM
         if maxmem < 0:
             maxmem = estimate_maxmem(n, r, p)
-        return stdlib_scrypt(
-            password=secret, salt=salt, n=n, r=r, p=p, dklen=keylen, maxmem=maxmem
-        )
+        try:
+            return stdlib_scrypt(
+                password=secret, salt=salt, n=n, r=r, p=p, dklen=keylen, maxmem=maxmem
+            )
+        except OverflowError as err:
+            # parameters the C api cannot even represent -- report like any other bad value
+            raise ValueError(f"scrypt: {err}") from None
 
     return stdlib_scrypt_wrapper
 
